@@ -1259,6 +1259,80 @@ class Env:
                 facts.append(((vt, Term(None, n - 1), 0), (bi, si), v))
         return facts
 
+    def upvar_facts(self, site_pos):
+        """the body is a closure: a captured integer variable that the enclosing function never reassigns has, inside the
+        closure, the bounds it has where the closure value is created (every creation site; the weakest bounds win)."""
+        b = self.b
+        if b.kind != "Closure" or not b.upvars:
+            return []
+        if getattr(self, "_upvar_cache", None) is None:
+            self._upvar_cache = {}
+            F = b.facts
+            par = b.path.rsplit("::{closure", 1)[0]
+            pb0 = F.bodies.get(par)
+            cands = [pb0] if pb0 is not None else [x for x in F.bodies.values() if x.file == b.file]
+            sites = []
+            for pb in cands:
+                for bi, si, st in pb.stmts():
+                    rv = st.get("rv")
+                    if rv and rv["k"] == "agg" and rv["kind"].get("a") == "closure" and rv["kind"]["def"] == b.path:
+                        sites.append((pb, bi, si, rv))
+            for k, (nm, pl) in enumerate(b.upvars):
+                # index of the captured field in the environment
+                fld = [e for e in pl["p"] if isinstance(e, dict) and "f" in e]
+                if not fld:
+                    continue
+                idx = fld[0]["f"]
+                lo, hi = None, None
+                okall = bool(sites)
+                for pb, bi, si, rv in sites:
+                    if idx >= len(rv["ops"]):
+                        okall = False
+                        break
+                    envp = Env(pb)
+                    o = rv["ops"][idx]
+                    q = op_place(o)
+                    src = None
+                    if q is not None and not q["p"]:
+                        d = pb.single_def(q["l"]) if q["l"] not in pb.names and q["l"] > pb.argc else None
+                        if d is not None and d[2] == "rv" and d[3]["k"] == "ref" and not d[3].get("mut") and not d[3]["p"]["p"]:
+                            src = d[3]["p"]["l"]          # captured by shared reference
+                        elif d is None:
+                            src = q["l"]                  # captured by copy
+                        elif d[2] == "rv" and d[3]["k"] == "use":
+                            q2 = op_place(d[3]["o"])
+                            if q2 is not None and not q2["p"]:
+                                src = q2["l"]
+                    if src is None or ty_range(pb.lty(src)) is None:
+                        okall = False
+                        break
+                    # never reassigned and never mutably borrowed in the enclosing function
+                    ndefs = len(pb.defs.get(src, []))
+                    if (envp.is_arg(src) and ndefs > 0) or (not envp.is_arg(src) and ndefs != 1):
+                        okall = False
+                        break
+                    if any(u["kind"] == "ref" and u.get("stmt", {}).get("rv", {}).get("mut") for u in pb.uses(src)):
+                        okall = False
+                        break
+                    t = envp.local_term(src, (bi, si))
+                    S, used, ok = knowledge(envp, bi, si, [t])
+                    if not ok(t):
+                        okall = False
+                        break
+                    l_, h_ = S.lower(t), S.upper(t)
+                    lo = l_ if lo is None else min(lo, l_)
+                    hi = h_ if hi is None else max(hi, h_)
+                if okall and lo is not None:
+                    self._upvar_cache[k] = (pl, lo, hi)
+        out = []
+        for k, (pl, lo, hi) in self._upvar_cache.items():
+            t = self.place_term(pl, site_pos)
+            if lo is not None and lo > -INF:
+                out.append((Term(None, 0), t, -lo))
+            if hi is not None and hi < INF:
+                out.append((t, Term(None, 0), hi))
+        return out
+
     def closure_param_len_facts(self):
         """the body is a closure handed to map / filter_map / for_each / ... of an iterator created by chunks_exact(k) /
         par_chunks_exact(k) / windows(k) (len == k) or chunks(k) / par_chunks(k) (1 <= len <= k), k constant: facts about
@@ -1715,6 +1789,8 @@ def knowledge(env, site_bb, site_idx, terms):
         cands.append((item[0], "enumerate-take"))
     for fx in env.closure_param_len_facts():
         cands.append((fx, "closure-param"))
+    for fx in env.upvar_facts(site_pos):
+        cands.append((fx, "captured"))
     # locals mentioned anywhere (facts or requirement)
     mentioned = set()
     for t in terms:
